@@ -182,6 +182,40 @@ Proof.
   rewrite B2. rewrite py_drop_end_app by discriminate. left. reflexivity.
 Qed.
 
+(* The writer's marker naming and the collector's fallback agree, for EVERY file a transaction registers: a data file under
+   data/ or a manifest / manifest list under metadata/manifests/ (written with or without a leading slash), whose own name has
+   no "/".  The marker _register_inflight writes for it (regenerated register_marker_path) is a marker for the collector
+   (under INFLIGHT_PATH, name ending in ".inflight"), and the paths the collector protects when that marker's PAYLOAD
+   cannot be used (regenerated marker_fallback of the marker's name) contain the file the writer registered (the reader's
+   resolution of the payload the writer stored).  A writer that names its markers differently ("<txn>-<basename>.inflight")
+   makes the fallback protect paths that do not exist: this theorem is then unprovable. *)
+Definition registered_dirs : list string := ["data"; "metadata/manifests"; "/data"; "/metadata/manifests"].
+
+Theorem registered_marker_fallback_covers : forall dir name, In dir registered_dirs -> has_char slash name = false ->
+  let file := (dir ++ String slash name)%string in
+  is_marker_key (register_marker_path file)
+  /\ In (resolve (register_marker_payload file)) (marker_fallback (basename (register_marker_path file)))
+  /\ (startswith "data/" (resolve (register_marker_payload file)) = true
+      \/ startswith "metadata/manifests/" (resolve (register_marker_payload file)) = true).
+Proof.
+  intros dir name Hd H. cbv zeta.
+  assert (B: basename (dir ++ String slash name) = name) by (apply basename_join; exact H).
+  assert (P: register_marker_path (dir ++ String slash name) = ((INFLIGHT_PATH ++ "/") ++ (name ++ INFLIGHT_SUFFIX))%string).
+  { unfold register_marker_path. cbv zeta. rewrite B. reflexivity. }
+  assert (B2: basename ((INFLIGHT_PATH ++ "/") ++ (name ++ INFLIGHT_SUFFIX))%string = (name ++ INFLIGHT_SUFFIX)%string).
+  { apply (basename_join INFLIGHT_PATH (name ++ INFLIGHT_SUFFIX)%string). rewrite has_char_app, H. reflexivity. }
+  rewrite P, B2. split; [|split].
+  - split; [apply (startswith_app (INFLIGHT_PATH ++ "/"))|rewrite B2; apply endswith_app].
+  - unfold marker_fallback. cbv zeta. change (String.length ".inflight") with (String.length INFLIGHT_SUFFIX).
+    rewrite py_drop_end_app by discriminate.
+    destruct Hd as [<-|[<-|[<-|[<-|[]]]]]; [left|right; left|left|right; left]; reflexivity.
+  - destruct Hd as [<-|[<-|[<-|[<-|[]]]]]; [left|right|left|right].
+    + change (resolve (register_marker_payload ("data" ++ String slash name))) with ("data/" ++ name)%string. apply startswith_app.
+    + change (resolve (register_marker_payload ("metadata/manifests" ++ String slash name))) with ("metadata/manifests/" ++ name)%string. apply startswith_app.
+    + change (resolve (register_marker_payload ("/data" ++ String slash name))) with ("data/" ++ name)%string. apply startswith_app.
+    + change (resolve (register_marker_payload ("/metadata/manifests" ++ String slash name))) with ("metadata/manifests/" ++ name)%string. apply startswith_app.
+Qed.
+
 Lemma hinv_open_tx : forall h name mt mmt, hinv h -> has_char slash name = false ->
   lookup (data_key name) (h_store h) = None -> lookup (register_marker_path (data_key name)) (h_store h) = None ->
   hinv (mkH ((register_marker_path (data_key name), mkObj mmt (CMarker (Some (register_marker_payload (data_key name)))))
